@@ -41,7 +41,48 @@ def canon(x):
         return type(x).__name__ + (f"[{f}]" if f else "")
     if isinstance(x, (str, int, bool, float)) or x is None:
         return repr(x)
-    return type(x).__name__ + ":" + str(x)
+    name = type(x).__name__
+    if name in ("Specifier", "SpecifierSet"):
+        return name + ":" + str(x) + "/pre=" + repr(x.prereleases)
+    if name == "Requirement":
+        return name + ":" + str(x) + "/" + canon([x.name, sorted(x.extras), x.specifier, x.url, None if x.marker is None else str(x.marker)])
+    return name + ":" + str(x)
+
+
+def scribble(x, depth=0):
+    """change every mutable part of a result in place — what a caller is free to do with what it was handed.  A later
+    call (with fresh, equal arguments) must not see any of it."""
+    if depth > 5:
+        return
+    name = type(x).__name__
+    if isinstance(x, list):
+        for y in list(x):
+            scribble(y, depth + 1)
+        x.append("scribble")
+        x.reverse()
+    elif isinstance(x, set):
+        for y in list(x):
+            scribble(y, depth + 1)
+        x.add("scribble")
+    elif isinstance(x, dict):
+        for y in list(x.values()):
+            scribble(y, depth + 1)
+        x["scribble"] = "scribble"
+    elif isinstance(x, (tuple, frozenset)):
+        for y in x:
+            scribble(y, depth + 1)
+    elif name == "Specifier":
+        x.prereleases = not x.prereleases
+    elif name == "SpecifierSet":
+        # (the member Specifier objects are shared between a set and the sets derived from it by `&`, by design of the
+        # library: they are not scribbled on)
+        x.prereleases = not x.prereleases
+    elif name == "Requirement":
+        scribble(x.extras, depth + 1)
+        scribble(x.specifier, depth + 1)
+        x.marker = None
+        x.url = "https://scribble.example/"
+        x.name = "scribble"
 
 
 def build(seed):
@@ -131,8 +172,10 @@ def build(seed):
     raw = {"metadata_version": "2.3", "name": "Foo", "version": "1.0", "requires_dist": ["a>=1", "b ; extra == 'x'"],
            "provides_extra": ["X_y", "z"], "keywords": ["k1", "k2"], "project_urls": {"B": "u2", "A": "u1"},
            "dynamic": ["Classifier", "requires-dist"], "requires_python": ">=3.8,!=3.9.*"}
-    add("meta.ok", lambda raw=raw: (lambda m: [m.name, str(m.version), [str(r) for r in m.requires_dist], m.provides_extra, m.keywords,
-                                                 m.project_urls, m.dynamic, str(m.requires_python), m.summary, m.name, [str(r) for r in m.requires_dist]])(
+    # (attributes of a Metadata built from the caller's dict may be the caller's own lists — by design of the library —, so
+    # copies are taken here: the scribbling in run_one must not reach the argument through them)
+    add("meta.ok", lambda raw=raw: (lambda m: [m.name, str(m.version), [str(r) for r in m.requires_dist], list(m.provides_extra), list(m.keywords),
+                                                 dict(m.project_urls), list(m.dynamic), str(m.requires_python), m.summary, m.name, [str(r) for r in m.requires_dist]])(
         metadata.Metadata.from_raw(raw)), raw)
     bad = dict(raw, version="not a version", requires_python="??", name="-bad-", license_files=["../x"], unknown_key="1")
     add("meta.bad", lambda bad=bad: metadata.Metadata.from_raw(bad), bad)
@@ -142,6 +185,28 @@ def build(seed):
     add("email.bad", lambda: metadata.Metadata.from_email("Foo: 1\nBar: 2\nBaz: 3\nQux: 4\nName: a\nNAME: b\n"))
     add("email.bad2", lambda: metadata.Metadata.from_email("Metadata-Version: 2.1\nName: -x\nVersion: v?\nSummary: a\n b\nRequires-Python: >>1\n"
                                                           "Requires-Dist: ok\nRequires-Dist: not ok\nDynamic: name\n"))
+    # live objects (not strings derived from them), so that the scribbling above reaches whatever they share
+    for r in ["requests>=2.8.1", "packaging >= 21.3 ; python_version >= '3.8'", "name @ https://example.com/x.zip", "a[x]>=1,<2; extra == 'x'"]:
+        add("live.req", lambda r=r: requirements.Requirement(r))
+    add("live.email", lambda: metadata.parse_email(doc))
+    add("live.email.bytes", lambda: metadata.parse_email(doc.encode()))
+    raw2 = {"metadata_version": "2.3", "name": "Foo", "version": "1.0", "requires_dist": ["a>=1", "b ; extra == 'x'", "a>=1"],
+            "provides_extra": ["x"], "keywords": ["k1", "k2"], "project_urls": {"B": "u2"}, "dynamic": ["classifier"],
+            "requires_python": ">=3.8", "classifiers": ["c"], "platforms": ["any"]}
+    for validate in (True, False):
+        add("live.meta", lambda v=validate: (lambda m: [m.requires_dist, m.provides_extra, m.keywords, m.project_urls, m.dynamic,
+                                                         m.requires_python, m.classifiers, m.platforms, m.requires_dist])(
+            metadata.Metadata.from_raw(copy.deepcopy(raw2), validate=v)))
+    add("live.meta.email", lambda: (lambda m: [m.requires_dist, m.keywords, m.project_urls])(metadata.Metadata.from_email(
+        "Metadata-Version: 2.1\nName: x\nVersion: 1\nKeywords: a,b\nProject-URL: A, u1\nRequires-Dist: a>=1\nRequires-Dist: b; extra == 'x'\n")))
+    shared = [specifiers.SpecifierSet(">=1.0", prereleases=True), specifiers.SpecifierSet(">=1.0,<3"), specifiers.SpecifierSet(""),
+              specifiers.SpecifierSet("~=2.1")]
+    for i, a in enumerate(shared):
+        for j, b in enumerate(shared):
+            add("live.and", lambda a=a, b=b: a & b, a, b)
+        add("live.and.str", lambda a=a: a & "", a)
+    add("live.tags", lambda: [list(tags.cpython_tags((3, 9), ["cp39"], ["p"])), tags.parse_tag("py2.py3-none-any"),
+                              utils.parse_wheel_filename("foo-1.0-1-py2.py3-none-any.whl")])
     add("canon.name", lambda: [utils.canonicalize_name(n) for n in ["Foo__Bar", "a.-_b", "X"]])
     add("canon.ver", lambda: [utils.canonicalize_version(v) for v in ["1.0.0", "1!2.0rc1", "junk"]])
     from packaging import licenses
@@ -153,7 +218,9 @@ def run_one(fn, args):
     snap = copy.deepcopy(args)
     hashes = [_safe_hash(a) for a in args]
     try:
-        out = canon(fn())
+        res = fn()
+        out = canon(res)
+        scribble(res)            # results are the caller's to change; nothing of that may leak into later calls
     except BaseException as e:  # noqa: BLE001
         out = "EXC " + canon(e)
     same = (canon(snap) == canon(args)) and hashes == [_safe_hash(a) for a in args]
